@@ -731,8 +731,10 @@ def getters_setters(ix, R):
                 ga = atom_of(gfl, gr.value) if gr is not None and gr.value is not None else None
                 if ga is not None and ga.head in ('attr', 'name') and str(ga.args[0]).startswith('self.'):
                     attr = ga.args[0]
-                    sts = [e for e in sfl.of('store') + sfl.of('aug')]
-                    ok = len(sts) == 1 and fmt(sfl, sts[0].target) == attr and val is not None and \
+                    # the setter writes the given value, unconditionally, to the attribute the getter returns; it may
+                    # do other book-keeping besides (drop a derived cache ...), which is not this obligation's business
+                    sts = [e for e in sfl.of('store') + sfl.of('aug') if fmt(sfl, getattr(e, 'target', None)) == attr]
+                    ok = len(sts) == 1 and val is not None and \
                         sfl.tab.equal(sts[0].value, sfl.tab.name(val)) and not sts[0].guards and not sts[0].loops \
                         and getattr(sts[0], 'op', None) is None
                     if not ok:
